@@ -24,7 +24,7 @@ pub fn gen_spec(ch: &mut Ch) -> WorldSpec {
     let token_len = *ch.pick(&[0usize, 4, 8, 1], "d.toklen");
     let mut resources = BTreeMap::new();
     let up_reply = if upload && ch.chance(1, 4, "d.up-reply") { ch.below(3 * size as u64 + 2, "d.up-reply.len") as usize } else { 0 };
-    resources.insert(path.clone(), ResSpec { lens: vec![len, (len + size) % (3 * size + 2)], opts: opts.clone(), up_reply_lens: vec![up_reply], own_block2: None });
+    resources.insert(path.clone(), ResSpec { lens: vec![len, (len + size) % (3 * size + 2)], opts: opts.clone(), up_reply_lens: vec![up_reply], own_block2: None, code: None });
     let mut transfers = Vec::new();
     let mut t = default_transfer(if upload { 3 } else { 1 }, path.clone(), TKind::Plain { body_id: 0, payload_len: 0 });
     t.token_len = token_len;
